@@ -50,12 +50,23 @@ STRENGTH = {
     'C17d': 'hostile kind `acquire_legit_peer` (a kernel ACQUIRE towards the legitimate peer at any moment); time passes in the closing phase of a schedule',
     'C18d': '(anticipated) `Cookie.tla` `Fills`: the half-open IKE_SAs come from distinct initiators, one replayed request, or one SPI with fresh nonces',
     'C19d': '`Config.tla`: identities that a resolver can turn into an address (a resolvable name, `10.1`, `1234`) are FQDN identities',
+    'C01e': 'negotiation matrix with asymmetric lists: the requester offers only what the responder likes least',
+    'C02e': '`Auth.tla` `Msg1` with `replay`: the genuine request is delivered after the rewritten one was answered',
+    'C05e': '`Wire.tla`: critical payloads of types the RFC defines but the implementation cannot parse (CERT, CERTREQ, CP, EAP)',
+    'C06e': 'time-scaling family: correctly sealed messages with n and 8n distinct elements (SPIs, payloads) - parse time may grow 8-fold, not 64-fold',
+    'C07e': 'modified copies of answered and of fresh protected requests handed to the real receiver: no reply, no change',
+    'C08e': 'scenario `estab_pfs` (CHILD_SA INVALID_KE_PAYLOAD retry with retransmission) in the quick tier of C08',
+    'C11e': '`Negotiate.tla` peer offers with two DH groups; the KE rule (`KeRule`) checked on CREATE_CHILD_SA: INVALID_KE_PAYLOAD naming the chosen group, then the retry',
+    'C16e': 'kernel-SAD divergences (`kern`) of the replayed behaviours also belong to C16 (an IKE_SA that ends is removed together with its kernel SAs)',
+    'C17e': 'hostile kind `wire_mutant`: bursts of members of the `Wire.tla` mutation families (the C06 generators) through the real `main_loop`',
+    'C18e': 'initiator side with a second, different COOKIE (the responder\'s secret changes before the retry arrives)',
+    'C20e': 'identities that are format templates / conversions (`{0.my_auth.psk}`, `%(psk)s`) on both sides',
 }
 ANTICIPATED = {'C13c', 'C18c', 'C09d', 'C16d', 'C18d'}
 
 
 def main():
-    rows, counts = [], {1: [0, 0], 2: [0, 0], 3: [0, 0], 4: [0, 0]}
+    rows, counts = [], {1: [0, 0], 2: [0, 0], 3: [0, 0], 4: [0, 0], 5: [0, 0]}
     for p in sorted(glob.glob(os.path.join(VERIF, 'seeded', '*', 'meta.json'))):
         m = json.load(open(p))
         k = m['name']
@@ -69,7 +80,7 @@ def main():
     total = sum(c[1] for c in counts.values())
     out = ['### 0.7 Seeded changes: which check catches which change\n',
            f'{total} changes were written by fresh sub-agents (one per property and round) that saw **only the text of the property** and a scratch worktree of `/repo` -',
-           'nothing from `/verif`; rounds 2 to 4 were additionally told which ideas the earlier rounds had used and to stay away from them.  Each change compiles, leaves the',
+           'nothing from `/verif`; rounds 2 to 5 were additionally told which ideas the earlier rounds had used and to stay away from them.  Each change compiles, leaves the',
            'repository\'s test suite at 176 passed / 11 failed, comes with a demonstration (`demo_seed.py`: PASS on the original, FAIL on the change) and was confirmed by',
            '`harness/seedeval.py` in a fresh worktree before the check of its property was run on it (`VERIF_REPO=<worktree>`, quick tier).  Patch, demonstration and',
            '`meta.json` (what it needs to manifest, what was run, the outcome before and after strengthening) are in `/verif/seeded/<id>/`; none of them was ever applied to `/repo`.\n',
